@@ -416,6 +416,7 @@ struct ModelChecks {
           return;
         }
         R.count("ctor|" + c.name + "|" + tn);
+        R.count("ctor_by_class|" + c.name + "|" + tn + "|" + gt.nu_class);
         R.nontrivial("ctor|" + c.name + "|" + tn + "|" + gt.nu_class);
         auto fmu = [&](const std::vector<f128>& x) { const ML r = solve(c.i, x[0], c.j, x[1]); return r.ok ? r.mu : QNAN; };
         auto fla = [&](const std::vector<f128>& x) { const ML r = solve(c.i, x[0], c.j, x[1]); return r.ok ? r.la : QNAN; };
@@ -427,6 +428,7 @@ struct ModelChecks {
         const int stored_kind[2] = {kG, kL};
         const std::string reg = regime(modulus_of(kNu, ref.mu, ref.la));
         bool state_ok = true;
+        if (rep[kG] != rep[kG] || rep[kL] != rep[kL]) R.count("nan_state|" + c.name + "|" + tn + "|" + gt.nu_class);
         for (int s = 0; s < 2; ++s) {
           const T got = rep[stored_kind[s]];
           const double e = cond_error<T>(got, refs[s], deltas[s]);
@@ -438,7 +440,7 @@ struct ModelChecks {
                  q2d(deltas[s] / ulp_at<T>(fabsq(refs[s]) > ref.mu ? refs[s] : ref.mu)));
           if (!(e <= kK)) {
             state_ok = false;
-            R.violation(key + "|accessor=" + kModName[stored_kind[s]] + "|" + tn + "|" + reg,
+            R.violation(key + "|accessor=" + kModName[stored_kind[s]] + "|" + reg + "|" + tn,
                         J().s("class", gt.nu_class).num("a", a).num("b", b).num("got", got).q("exact", refs[s])
                             .q("delta", deltas[s]).q("ulp", ulp_at<T>(refs[s])).d("error_in_bound_units", e).d("bound", kK)
                             .d("error_ulps", ulps<T>(got, refs[s])).q("exact_nu", modulus_of(kNu, ref.mu, ref.la)).str());
@@ -463,7 +465,7 @@ struct ModelChecks {
           R.maxi(std::string("err_accessor|") + kModName[k] + "|" + tn, e);
           R.maxi(std::string("err_accessor_by_ctor|") + kModName[k] + "<-" + c.name + "|" + tn, e);
           if (!(e <= kK)) {
-            R.violation(key + "|accessor=" + kModName[k] + "|" + tn + "|" + reg,
+            R.violation(key + "|accessor=" + kModName[k] + "|" + reg + "|" + tn,
                         J().s("class", gt.nu_class).num("a", a).num("b", b).num("got", rep[k]).q("exact", r)
                             .q("allowed_abs_error", allowed).d("error_in_bound_units", e).d("bound", kK)
                             .d("error_ulps", ulps<T>(rep[k], r)).num("stored_mu", rep[kG]).num("stored_lambda", rep[kL])
@@ -523,7 +525,7 @@ struct ModelChecks {
             R.eval();
             R.maxi("err_rebuild|" + c.name + "|" + tn, e);
             if (!(e <= kK)) {
-              R.violation(key + "|" + tn + "|" + regime(modulus_of(kNu, static_cast<f128>(origin_mu), static_cast<f128>(origin_la))),
+              R.violation(key + "|" + regime(modulus_of(kNu, static_cast<f128>(origin_mu), static_cast<f128>(origin_la))) + "|" + tn,
                           J().s("class", gt.nu_class).s("original_built_by", origin_name).s("which", s ? "lambda" : "mu")
                               .num("original", want[s]).num("reported_a", a).num("reported_b", b).num("rebuilt", got[s])
                               .q("exact_from_reported_pair", s ? ref.la : ref.mu).q("delta_4ulp", d[s])
@@ -810,7 +812,7 @@ struct TensorChecks {
 template <typename M>
 void run_model_type(Reporter& R, const Args& A) {
   ModelChecks<M> mc(R, A);
-  const long long n = A.n("materials", A.thorough() ? 120000 : 4800);
+  const long long n = A.n("materials", A.thorough() ? 90000 : 4800);
   const int ntensors = static_cast<int>(A.n("tensors", A.thorough() ? 3 : 2));
   TensorChecks<M, float> tf(R);
   TensorChecks<M, double> td(R);
